@@ -53,6 +53,27 @@ def feeding_literals(facts, ex, enum_name):
     return out
 
 
+def direct_pairs(facts, ex, enum_name):
+    """{literal: variant} for every `value(<enum>::Variant, <parser of a finite set of tags>)` of the expression grammar: the
+    token is paired with its variant directly, without the string-keyed From<&str>"""
+    out = {}
+    for v in ex.values:
+        c = v["v"]
+        while isinstance(c, dict) and c.get("k") in ("AddrOf", "Cast"):
+            c = c["a"]
+        path = str(c.get("path", "")) if isinstance(c, dict) else ""
+        if c.get("k") == "Path" and ("model::%s::" % enum_name) in path:
+            lits = e2.term_literals(v["term"])
+            if lits is None:
+                raise BrokenCheck("%s pairs %s with a parser that is not a finite set of tags" % (v["fn"], path))
+            for l in lits:
+                if l in out and out[l] != path.split("::")[-1]:
+                    out[l] = "%s and %s" % (out[l], path.split("::")[-1])
+                else:
+                    out[l] = path.split("::")[-1]
+    return out
+
+
 def extractor_for_xpath(facts):
     if id(facts) in _cache:
         return _cache[id(facts)]
